@@ -8,6 +8,8 @@ import DK.Driver.Usable
 import DK.Driver.State
 import DK.Driver.Solve
 import DK.Driver.Cons
+import DK.Driver.History
+import DK.Driver.Validate
 /-! Line driver: one JSON operation per input line, one JSON answer per output line. -/
 namespace DK.Driver
 open Lean
@@ -31,6 +33,8 @@ def handle (line : String) : String :=
       else if op.startsWith "state." then stateOp op j
       else if op.startsWith "solve." then solveOp op j
       else if op.startsWith "cons." then consOp op j
+      else if op.startsWith "hist." then historyOp op j
+      else if op.startsWith "validate." then validateOp op j
       else throw s!"unknown op {op}" : Except String Json) with
     | .ok v => ok v
     | .error e => err e
